@@ -33,7 +33,7 @@ func run(c *vf.Ctx) {
 	}
 	c.Rule("messages: (A) id x flags over Words(16) one-at-a-time + Bits1xBits1; (B) section sizes (q,an,ns,ar) in {0,1,2}^4 x rotations through the name pool; " +
 		"(C) every pool name in every section at positions first/second; (D) type/class Words(16), TTL Words(32) per section; (E) RDATA lengths {0,1,4,16,255,256,65535}(+thorough) per RR section and position; " +
-		"(F) suffix-sharing families for compression. Name pool: single labels of length {1,2,62,63} x 7 fill bytes, every position x every byte value except '.' in a 3-byte label, " +
+		"(E') a name first occurring at offsets 0xFF..0x4001 (after a large RDATA) and referred to later, so compression pointers carry every offset bit; (F) suffix-sharing families for compression. Name pool: single labels of length {1,2,62,63} x 7 fill bytes, every position x every byte value except '.' in a 3-byte label, " +
 		"all label-length sequences over {1,2,62,63} up to 3 (thorough 4) labels that fit 255 wire octets, totals 253..255, 1..127 one-byte labels, root. " +
 		"pointer placement (E1): every label boundary of every question name of small 2- and 3-question packets is replaced by a pointer to every offset 0..len-1, 0x3FFF, or a cut after the first pointer octet, up to 2 (thorough 3) replacements per packet. " +
 		"distinct = distinct wire images reaching a comparison")
@@ -227,8 +227,8 @@ func namePool(c *vf.Ctx) [][]string {
 		}
 	}
 	maxK := c.Pick(3, 4)
-	var rec func(prefix []int)
-	rec = func(prefix []int) {
+	var gen func(prefix []int)
+	gen = func(prefix []int) {
 		if len(prefix) > 0 {
 			var l []string
 			for i, n := range prefix {
@@ -240,10 +240,10 @@ func namePool(c *vf.Ctx) [][]string {
 			return
 		}
 		for _, n := range lens {
-			rec(append(append([]int{}, prefix...), n))
+			gen(append(append([]int{}, prefix...), n))
 		}
 	}
-	rec(nil)
+	gen(nil)
 	for _, ls := range [][]int{{63, 63, 63, 61}, {63, 63, 63, 60}, {63, 63, 63, 59}, {63, 63, 62, 62}, {61, 63, 63, 63}, {1, 63, 63, 63, 59}, {62, 62, 62, 62, 1}} {
 		var l []string
 		for i, n := range ls {
